@@ -37,6 +37,7 @@ type layItem struct {
 	Long      bool     `json:"long"`
 	Nm        string   `json:"nm"`
 	Mention   bool     `json:"mention"`
+	Gen2      bool     `json:"gen2"`
 	name      string   // interface name fixed by layNames
 	methods   []string // method names fixed by layNames (recvsame)
 }
@@ -55,6 +56,7 @@ type layCase struct {
 		Imports string    `json:"imports"`
 		Sibling string    `json:"sibling"`
 		Embed   string    `json:"embed"`
+		Pkggen  bool      `json:"pkggen"`
 	} `json:"layout"`
 	Rejected bool     `json:"rejected"`
 	Out      []layOut `json:"out"`
@@ -71,6 +73,9 @@ func layMethods(it *layItem) []string {
 	if it.Short && it.ID == "c1" {
 		return []string{"F", "G"}[:it.Nmeth]
 	}
+	if it.ID == "emb2" {
+		return []string{"EmbAlpha"} // the same method as PlainEmb's, with the same signature
+	}
 	if it.Short {
 		return []string{"H", "J"}[:it.Nmeth]
 	}
@@ -81,7 +86,7 @@ func layMethods(it *layItem) []string {
 // name of its one method ("" for none).
 func layEmbedded(l *layCase) (intf, method string) {
 	switch l.Layout.Embed {
-	case "file":
+	case "file", "dup", "redecl":
 		return "PlainEmb", "EmbAlpha"
 	case "sibling":
 		return "SibEmb", "SibEmbAlpha"
@@ -197,6 +202,10 @@ func layRender(l *layCase) map[string]string {
 	if lay.Pkgdoc {
 		sb.WriteString("// Package p is documented here tokPKGDOC.\n")
 	}
+	if lay.Pkggen {
+		// a directive directly above the package clause: part of the package's doc comment, or all of it
+		sb.WriteString("//go:generate echo tokGENpkg\n")
+	}
 	sb.WriteString("package p\n\n")
 	usesAux := lay.Imports == "used" || lay.Imports == "mixed"
 	if lay.Imports == "dot" {
@@ -242,6 +251,9 @@ func layRender(l *layCase) map[string]string {
 			if it.Gen {
 				fmt.Fprintf(&sb, "//go:generate echo tokGEN%s\n", it.ID)
 			}
+			if it.Gen && it.Gen2 {
+				fmt.Fprintf(&sb, "//go:generate echo tokGENB%s\n//go:generate echo tokGENC%s\n", it.ID, it.ID)
+			}
 			tr := ""
 			if it.Trail {
 				tr = " // trailing tokTR" + it.ID
@@ -279,7 +291,7 @@ func layRender(l *layCase) map[string]string {
 		}
 		ms := layMethods(it)
 		sig := func(m string) string {
-			if it.ID == "emb" {
+			if it.ID == "emb" || it.ID == "emb2" {
 				return m + "(*LayA) *LayB" // embedded by a converter interface: a method of converter shape
 			}
 			if !selected {
@@ -304,6 +316,12 @@ func layRender(l *layCase) map[string]string {
 			fmt.Fprintf(&sb, "type %s %sinterface {\n", layIntfName(it), eq)
 			if emb, _ := layEmbedded(l); emb != "" && it == layFirstConv(l) {
 				fmt.Fprintf(&sb, "\t%s\n", emb)
+				switch lay.Embed {
+				case "dup":
+					sb.WriteString("\tPlainEmb2\n") // declares the same method: one member of the method set
+				case "redecl":
+					sb.WriteString("\tEmbAlpha(*LayA) *LayB\n") // the embedded method, declared again
+				}
 			}
 			for k, m := range ms {
 				if it.Mdoc {
@@ -638,7 +656,7 @@ func layDescribe(l *layCase) string {
 			parts = append(parts, it.ID+"["+a+"]")
 		}
 	}
-	return fmt.Sprintf("layout{%s} build=%s pkgdoc=%v imports=%s sibling=%s", strings.Join(parts, " "), l.Layout.Build, l.Layout.Pkgdoc, l.Layout.Imports, l.Layout.Sibling)
+	return fmt.Sprintf("layout{%s} build=%s pkgdoc=%v pkggen=%v imports=%s sibling=%s", strings.Join(parts, " "), l.Layout.Build, l.Layout.Pkgdoc, l.Layout.Pkggen, l.Layout.Imports, l.Layout.Sibling)
 }
 
 type layRun struct {
@@ -840,7 +858,7 @@ func C11(c *core.Ctx) {
 	if c.Replay != "" {
 		replayUnsupported(c)
 	}
-	keep := 24
+	keep := 40
 	if c.Thorough() {
 		keep = 1
 	}
